@@ -199,7 +199,8 @@ def judge_loss(case, obs):
                                 "connection; configured limit %r; status log %r" % (t - 1000.0, n_failed, limit,
                                                                                    [(round(a - 1000.0, 3), b) for a, b in obs["status_log"]])))
                 n_failed = 0
-        calls = obs.get("app_connect_calls", [])
+        calls = [t for t in obs.get("app_connect_calls", [])
+                 if any(abs(a - t) < 1e-9 and not ok for (a, ok) in attempts)]      # those made with the device absent
         if calls and limit is not None and not present_at_end:
             # every round of retries that ends without a connection is reported, also the second one
             n_reports = len([1 for (t, s_) in obs["status_log"] if s_ == "failed"])
@@ -211,6 +212,31 @@ def judge_loss(case, obs):
         if present_at_end and not failed and obs["_connected_at_end"] is False:
             out.append(("C17:%s:never-reconnects" % drv, "device back since t=%.3f, 'failed' never reported, but the driver is still "
                         "disconnected at t=%.1f; status log %r" % (restores[-1], obs["t_end"], obs["status_log"][-4:])))
+    # ---- every round of automatic retries is ONE chain: after each 'disconnected' report the attempts come one
+    #      interval after the report and one interval after each other until 'connected' / 'failed' - also when the
+    #      application had connected by hand in between.  (A connect() by hand while the device is absent starts a
+    #      round of its own in the library as it stands: not judged then.)
+    calls = obs.get("app_connect_calls", [])
+    by_hand = {round(t, 9) for t in calls}
+    hand_failed = any((round(t, 9) in by_hand) and not ok for (t, ok) in attempts)
+    if obs["connected"] and not hand_failed:
+        marks = sorted([(t, 1, s_) for (t, s_) in obs["status_log"]] +
+                       [(t, 0, "attempt") for (t, ok) in attempts if round(t, 9) not in by_hand])
+        last = None
+        for (t, _, what) in marks:
+            if what == "disconnected":
+                last = t
+            elif what in ("connected", "failed"):
+                last = None
+            elif what == "attempt" and last is not None:
+                if abs((t - last) - interval) > 1e-6:
+                    out.append(("C17:%s:reconnect-spacing" % drv, "reconnection attempt at t=%.4f comes %.4f s after the previous "
+                                "attempt / the 'disconnected' report (t=%.4f); configured interval %r; attempts %r, connect() by hand "
+                                "at %r, status log %r" % (t - 1000.0, t - last, last - 1000.0, interval,
+                                                          [round(a - 1000.0, 4) for a, _ in attempts], [round(a - 1000.0, 4) for a in calls],
+                                                          [(round(a - 1000.0, 3), b) for a, b in obs["status_log"]])))
+                    break
+                last = t
     # ---- a (re)sent device-type command carries its ENABLE DEVICE TYPE prefix on the connection it is written to:
     #      the retry after a loss must repeat the prefix, the gear behind the reconnected gateway has not seen it
     need = {}
@@ -353,15 +379,32 @@ def loss_case(draw, driver=None):
     limit = draw(st.sampled_from([None, None, 0, 1, 3]))
     interval = draw(st.sampled_from([0.5, 1]))
     back = draw(st.sampled_from(["never", "soon", "during-wait", "late", "flaky-handshake", "lost-during-handshake",
-                                 "lost-during-handshake"]))
+                                 "lost-during-handshake", "by-hand"]))
+    if back == "by-hand" and how not in ("error", "eof"):
+        back = "soon"
+    if back == "by-hand":
+        # the device is back while the driver still waits for its next attempt; the application connects by hand at
+        # once; the device goes again before that attempt would have come - and returns much later or never
+        f1, f2, f3 = draw(st.sampled_from([(0.2, 0.25, 0.7), (0.3, 0.35, 0.9), (0.1, 0.5, 0.6), (0.3, 0.31, 1.4)]))
+        events.append({"t": round(t_loss + f1 * interval, 5), "what": "restore"})
+        events.append({"t": round(t_loss + f2 * interval, 5), "what": "app_connect"})
+        events.append({"t": round(t_loss + f3 * interval, 5), "what": "lose", "notify": True})
+        if draw(st.booleans()):
+            events.append({"t": round(t_loss + (f3 + 2.6) * interval, 5), "what": "restore"})
+            back = "late"
+        else:
+            back = "never"
+        by_hand = True
+    else:
+        by_hand = False
     if back == "lost-during-handshake" and how == "write_fails":
         back = "soon"
-    if back == "never" and limit is not None and how in ("error", "eof") and draw(st.booleans()):
+    if back == "never" and not by_hand and limit is not None and how in ("error", "eof") and draw(st.booleans()):
         t_again = t_loss + (limit + 1) * interval + 0.7
         events.append({"t": round(t_again, 4), "what": "app_connect"})
         if draw(st.booleans()):
             events.append({"t": round(t_again + (limit + 2) * interval + 0.7, 4), "what": "app_connect"})
-    if back != "never":
+    if back != "never" and not by_hand:
         t_back = t_loss + {"soon": 0.35, "during-wait": interval * 1.5 + 0.31, "late": interval * 2.2 + 0.31,
                            "flaky-handshake": 0.35, "lost-during-handshake": 0.2}[back]
         events.append({"t": t_back, "what": "restore"})
